@@ -21,6 +21,7 @@ import (
 )
 
 type vfC16Script struct {
+	udpPadTo   int // > 0: the UDP reply is padded to exactly this many octets
 	udpDelay time.Duration // the UDP reply is held back this long (to arrive late in the caller's deadline)
 	udpTC      bool
 	udpRcode   uint16
@@ -116,6 +117,13 @@ func (s *vfC16Server) serveUDP() {
 			bits |= vfkit.BitTC
 		}
 		reply := vfTokenReply(d, bits, sc.udpToken, sc.udpExtra)
+		if n := sc.udpPadTo - len(reply) - 11; sc.udpPadTo > 0 && n >= 0 {
+			// one opaque additional record owned by the root brings the datagram to exactly udpPadTo octets
+			reply = append([]byte(nil), reply...)
+			binary.BigEndian.PutUint16(reply[10:], binary.BigEndian.Uint16(reply[10:])+1)
+			reply = append(reply, 0, 0xFF, 0x00, 0, 1, 0, 0, 0, 60, byte(n>>8), byte(n))
+			reply = append(reply, make([]byte, n)...)
+		}
 		if sc.udpDelay > 0 {
 			go func(delay time.Duration) {
 				time.Sleep(delay)
@@ -191,7 +199,7 @@ func vfMsgToken(m *dnsmsg.Msg) (uint32, bool) {
 var vfC16Tok uint32
 
 func TestVfC16Fallback(t *testing.T) {
-	st := vfkit.Stats("TestVfC16Fallback", "queries x UDP reply (TC on/off, rcode 0-5, 0-3 extra records) x TCP leg outcome (distinct reply, reply with TC, error rcode, close, silence until the deadline), in one case of twelve with the UDP reply arriving 20-190 ms before the deadline, against a fake server on one UDP+TCP port, addressed directly or through dial_addr (URL host = an address where nothing listens); oracle: TC=0 => UDP reply returned, no TCP query; TC=1 => TCP leg receives the same query and the caller gets exactly the TCP outcome; non-trivial = UDP reply has TC")
+	st := vfkit.Stats("TestVfC16Fallback", "queries x UDP reply (TC on/off, rcode 0-5, 0-3 extra records, one in five padded to exactly 4080-4096 octets - the transport's receive buffer - or 511-513 / 1232-1233) x TCP leg outcome (distinct reply, reply with TC, error rcode, close, silence until the deadline), in one case of twelve with the UDP reply arriving 20-190 ms before the deadline, against a fake server on one UDP+TCP port, addressed directly or through dial_addr (URL host = an address where nothing listens); oracle: TC=0 => UDP reply returned, no TCP query; TC=1 => TCP leg receives the same query and the caller gets exactly the TCP outcome; non-trivial = UDP reply has TC")
 	defer vfkit.Flush()
 	srv := vfNewC16Server(t)
 	defer srv.close()
@@ -225,6 +233,10 @@ func TestVfC16Fallback(t *testing.T) {
 			tcpRcode: uint16(rapid.IntRange(1, 5).Draw(t, "tcpRcode")),
 			udpToken: tok*2 + 1000000,
 			tcpToken: tok*2 + 1000001,
+		}
+		if rapid.IntRange(0, 4).Draw(t, "sizedUDPReply") == 0 {
+			// a reply that fills the transport's receive buffer (4096 octets) exactly, or nearly, or a classic limit
+			sc.udpPadTo = rapid.OneOf(rapid.IntRange(4080, 4096), rapid.SampledFrom([]int{511, 512, 513, 1232, 1233, 4095, 4096, 4096})).Draw(t, "udpReplyOctets")
 		}
 		srv.mu.Lock()
 		srv.scripts[tok] = sc
